@@ -406,6 +406,20 @@ def r3_r5_counts(ctx):
                   'only rows without any cell are skipped', f'rows are skipped under `{src(empty[0].test)}`')
 
 
+def _closed_atoms(ctx, fi, atoms):
+    """Atoms without any free variable of the function: only constants, constructor calls of constants, module-level names."""
+    out = []
+    for a in atoms:
+        try:
+            node = ast.parse(a, mode='eval').body
+        except SyntaxError:
+            continue
+        names = {n.id for n in ast.walk(node) if isinstance(n, ast.Name)}
+        if names and all(n_ not in fi.all_params and ctx.prog.resolve(fi.module, n_) is not None for n_ in names):
+            out.append(a)
+    return out
+
+
 def r5_arity(ctx, sop):
     """For every spine operator the function is specialised (the cell text replaced by the operator, look-ups in constant
     tables resolved) and the continuations pushed on each remaining path are counted: if-chains, tables of effects and
@@ -478,6 +492,9 @@ def r5_arity(ctx, sop):
             got = {o for o, _ in results.get(key, set())}
             label = v if key == 'any' else f'{v} ({key})'
             what = {'*-': 'terminates the path', '*+': 'adds a path', '*^': 'splits the path', '*v': 'joins paths'}.get(v, 'is rejected')
+            if got != {exp} and _closed_atoms(ctx, sop, unknown):
+                raise AnalysisError(f'{sop.loc}: for {v!r} the count depends on `{_closed_atoms(ctx, sop, unknown)[0][:70]}`, a test on values '
+                                    f'that are fixed by the operator but that the evaluator does not compute: not decided')
             ctx.check(got == {exp}, 'R5', at, sop.qualname, f'spine-operator-arity:{label}',
                       f'{label} {what}: continuations pushed for the next row = {exp}',
                       f'{label}: continuations pushed = {sorted(got, key=str)}, expected {exp}'
